@@ -542,8 +542,27 @@ def check_effective_threshold(ctx: Ctx):
         if tp is None:
             continue
         attr = next((a for a in _threshold_attrs(prog, cls, tp)), None)
+        # the metrics of the registry, one per direction: a matcher may accept only some metrics (then the
+        # others are refused whatever the threshold - not this rule's business), but one it accepts for one
+        # numeric threshold it must accept for every numeric threshold
+        from .resultrun import metric_objs as _mo
+        from .common import metric_direction as _md
+
+        reg = _mo(prog)
+        cands = {False: [m for m in reg if not _md(prog, m)], True: [m for m in reg if _md(prog, m)]}
         for dec in (False, True):
-            mv, me = make_metric_objs(prog, dec)
+            accepted = None
+            for me in cands[dec] or [make_metric_objs(prog, dec)[1]]:
+                o_try = Obj(cls, {})
+                a_try = {tp: Fraction(1, 4)}
+                if mp:
+                    a_try[mp] = me
+                if Interp(prog, init, a_try, self_obj=o_try).run().kind != "raise":
+                    accepted = me
+                    break
+            if accepted is None:
+                continue  # no metric of this direction is accepted by this matcher
+            me = accepted
             for thr in (0, 0.0, Fraction(1, 4), 1.0):
                 o = Obj(cls, {})
                 args = {tp: thr}
@@ -1251,6 +1270,19 @@ def check_candidate_call(ctx: Ctx):
             out = it.run()
         except Undecided as e:
             if not calls:
+                # a matcher that never reaches the candidate function through its own calls does not use it at all
+                reach, work = {f.qual}, [f]
+                for _ in range(3):
+                    nxt = []
+                    for g in work:
+                        for c in prog.calls_in(g):
+                            for h in prog.resolve_call(g, c):
+                                if isinstance(h, Func) and h.qual not in reach:
+                                    reach.add(h.qual)
+                                    nxt.append(h)
+                    work = nxt
+                if target.qual not in reach:
+                    continue
                 ctx.undecided("R03.7", f, f.node, f"{f.qual}:candidate-call", f"matcher not evaluable up to the candidate call: {e}")
                 continue
             out = None
